@@ -88,6 +88,10 @@ def run(ctx):
         if r.random() < 0.2:
             lists[r.choice(rc.CATS)].append(pg.unknown_name(r, 'plain'))
         mixes.append(rc.mk_peer(lists['kex'], lists['key'], lists['enc'], lists['mac']))
+    # peers whose ONLY warning arises at run time (the Terrapin mark written by post_process_findings): every view must still exit 2 (seed C02-9)
+    for ch in [n for n in pg.master()['enc'] if n.startswith('chacha20-poly1305')]:
+        for extra_enc in ([], [r.choice(cl['enc']['clean'])]):
+            mixes.append(rc.mk_peer([r.choice(cl['kex']['clean'])], [r.choice(cl['key']['clean'])], [ch] + extra_enc, [r.choice(cl['mac']['clean'])]))
     for i, peer in enumerate(mixes):
         base = None
         opts = OPTION_SETS if ctx.tier == 'thorough' else (r.sample(OPTION_SETS, 4) + [OPTION_SETS[0]])
